@@ -158,7 +158,7 @@ def _flatten(group):
     return out
 
 
-def _locate(flat, name, loaded, fams, ndim, collisions, same):
+def _locate(flat, name, loaded, fams, ndim, collisions, same, taken=()):
     """Find raw variable `name` in a flattened group.  `same(arr)` tells whether an Array holds the wanted values.
     -> (key or None, problem text or None)"""
     fam = None
@@ -184,7 +184,12 @@ def _locate(flat, name, loaded, fams, ndim, collisions, same):
         # preferred candidates first (own name, documented merged name), then any vector component of that letter
         cands = ([(name, "")] if collided else []) + ([(fam["merged"], letter)] if fam["merged"] else [])
         cands += [k for k in flat if k[1] == letter and k not in cands]
-    for k in cands:
+        # among equal candidates, first the vector named like the variable without its component letter
+        guess = name.replace("_" + letter, "", 1) if ("_" + letter) in name else name.replace(letter, "", 1)
+        cands.sort(key=lambda k: 0 if k[0] == guess else 1)
+    # (members that already stand for another requested variable come last: with no rows at all every member "has the
+    # wanted values", and two families must not be identified with one vector)
+    for k in [k for k in cands if k not in taken] + [k for k in cands if k in taken]:
         if k in flat and same(flat[k]):
             return k, None
     if (name, "") in flat and not collided:
@@ -354,7 +359,7 @@ def subset(case, r):
                         return a.unit == ref.unit and a.shape == ref.shape and np.array_equal(
                             np.asarray(a.values), np.asarray(ref.values))
                     coll_g = [c for c in case.get("collisions_by_group", {}).get(g, coll) if c in loaded]
-                    k, why = _locate(flat, name, loaded, fl, ndim, coll_g, same)
+                    k, why = _locate(flat, name, loaded, fl, ndim, coll_g, same, taken=accounted)
                     if k is None:
                         r.bad(["select", "variable-differs-or-missing", g, sel["k"]],
                               f"select={arg!r}: {why}; keys {sorted(sub[g].keys())}; descriptor order {desc_order}")
